@@ -9,7 +9,7 @@
    including at which invocations they fail), the start state of the invocation/allocation
    counters, and the number k of calls (induction on k). *)
 From Coq Require Import List Arith Bool NArith.
-From PV Require Import Model.Registry Proofs.RegistryFacts Proofs.RegistryProofs.
+From PV Require Import Model.Registry Proofs.RegistryFacts Proofs.RegistryProofs Proofs.RegistryNestProofs.
 Import ListNotations.
 
 (* Every constructor call receives, and every product is built from, a config that was made
@@ -76,6 +76,19 @@ Theorem C18_fresh_ids : forall c o s calls,
 Proof. exact fresh_ids_nodup. Qed.
 Print Assumptions C18_fresh_ids.
 
+(* Overlapping creations of the same registered entry: while the fillConf of one creation runs,
+   another creation of the same (type, name) runs to completion (a nested component of the same
+   entry created from inside the decode, or a second goroutine whose creation falls into the
+   first one's decode window).  Each of the two is a correct creation of its own: the outer
+   constructor gets the config made from ITS default and ITS fill, the inner one its own; errors
+   are routed as in C18_errors.  For k New calls, and for NewFactory + k calls of a factory made
+   from a plugin constructor with a config. *)
+Theorem C18_overlapping_creations : forall sh rq o k,
+  rq = ReqNew \/ (sh_ret sh = RPlugin /\ is_nocfg (sh_cfg sh) = false) ->
+  nest_b sh rq o (run_nest sh rq o k) = true.
+Proof. exact nest_holds. Qed.
+Print Assumptions C18_overlapping_creations.
+
 (* ---- non-vacuity: concrete runs, and observations the specification rejects ---- *)
 
 Definition ex_oracle (ff cf : nat -> bool) : oracle :=
@@ -118,3 +131,14 @@ Example C18_spec_rejects_nil_config :
                (ex_oracle (fun _ => false) (fun _ => false))
                (ObsNew [ ([EvDefault 0; EvCtor 0 ANil], OOk (mkProd 0 ANil None)) ]) = false.
 Proof. vm_compute. reflexivity. Qed.
+
+(* an outer constructor that got the inner creation's config is rejected *)
+Example C18_spec_rejects_foreign_config :
+  reround_ok (mkShape RPlugin CPtr false false DefVal TIface) (ex_oracle (fun _ => false) (fun _ => false)) true
+    (mkRe [EvDefault 0; EvFill 0 (FTConf 0) (mkV 100 200 0)]
+          ([EvDefault 1; EvFill 1 (FTConf 1) (mkV 101 201 0); EvCtor 0 (AConf (mkConf 1 (mkV 101 301 401)))],
+           OOk (mkProd 0 (AConf (mkConf 1 (mkV 101 301 401))) None))
+          [EvCtor 1 (AConf (mkConf 1 (mkV 101 301 401)))]
+          (OOk (mkProd 1 (AConf (mkConf 1 (mkV 101 301 401))) None))) = false.
+Proof. vm_compute. reflexivity. Qed.
+
